@@ -1,162 +1,14 @@
-//! The form tables: every free function of `palette::cast` and every `impl_array_casts!` std
-//! conversion (all types), and every cast trait × owner (representative subset).
+//! Generic executors of the cast forms (tables in meta.rs). This file is compiled as several
+//! modules (`#[path]` in main.rs) only to spread the monomorphised code over more codegen units.
 use crate::kinds::*;
+use crate::meta::{by_k, kind_str};
 use crate::subjects::{Prim, Subject};
 use core::slice::{from_mut, from_ref};
 use palette::cast::{
     self, ArraysAs, ArraysAsMut, ArraysFrom, ArraysInto, AsArrays, AsArraysMut, AsComponents, AsComponentsMut, BoxedSliceCastError, ComponentsAs,
     ComponentsAsMut, ComponentsFrom, ComponentsInto, FromArrays, FromComponents, IntoArrays, IntoComponents, SliceCastError, TryComponentsAs,
-    TryComponentsAsMut, TryComponentsInto, TryFromComponents, VecCastError, VecCastErrorKind,
+    TryComponentsAsMut, TryComponentsInto, TryFromComponents, VecCastError,
 };
-
-#[derive(Clone, Copy, Debug, PartialEq, Eq)]
-pub enum Fal {
-    /// cannot reject
-    Inf,
-    /// returns an error value on rejection
-    Try,
-    /// panics on rejection
-    Pan,
-}
-#[derive(Clone, Copy, Debug, PartialEq, Eq)]
-pub enum Lens {
-    /// one element
-    One,
-    /// by-value arrays of 0..=3 elements
-    K3,
-    /// (input length, output length) pairs from the per-N pair list
-    Pairs,
-    /// 0..=4N+1 (thorough: more)
-    Buf,
-    /// single-colour view of a component slice: 0..=2N+1, accepted iff len == N
-    Exact1,
-}
-#[derive(Clone, Copy, Debug, PartialEq, Eq)]
-pub enum Kd {
-    C,
-    A,
-    T,
-}
-
-pub struct FormMeta {
-    pub name: &'static str,
-    pub ik: Kd,
-    pub ok: Kd,
-    pub fal: Fal,
-    pub lens: Lens,
-    pub owners: &'static [Owner],
-    pub mutable: bool,
-}
-
-pub fn kind_str(k: VecCastErrorKind) -> &'static str {
-    match k {
-        VecCastErrorKind::LengthMismatch => "length",
-        VecCastErrorKind::CapacityMismatch => "capacity",
-    }
-}
-
-macro_rules! by_k {
-    ($len:expr, 3, $K:ident, $e:expr) => {
-        match $len {
-            0 => { const $K: usize = 0; $e }
-            1 => { const $K: usize = 1; $e }
-            2 => { const $K: usize = 2; $e }
-            3 => { const $K: usize = 3; $e }
-            _ => return None,
-        }
-    };
-    ($len:expr, 9, $K:ident, $e:expr) => {
-        match $len {
-            0 => { const $K: usize = 0; $e }
-            1 => { const $K: usize = 1; $e }
-            2 => { const $K: usize = 2; $e }
-            3 => { const $K: usize = 3; $e }
-            4 => { const $K: usize = 4; $e }
-            5 => { const $K: usize = 5; $e }
-            6 => { const $K: usize = 6; $e }
-            7 => { const $K: usize = 7; $e }
-            8 => { const $K: usize = 8; $e }
-            9 => { const $K: usize = 9; $e }
-            _ => return None,
-        }
-    };
-}
-pub(crate) use by_k;
-
-const SL: &[Owner] = &[Owner::Slice];
-const BX: &[Owner] = &[Owner::Box];
-const VC: &[Owner] = &[Owner::Vec];
-const VL: &[Owner] = &[Owner::Value];
-const ALL4: &[Owner] = &[Owner::Slice, Owner::Array, Owner::Box, Owner::Vec];
-
-macro_rules! fm {
-    ($name:literal, $ik:ident, $ok:ident, $fal:ident, $lens:ident, $own:ident, $m:literal) => {
-        FormMeta { name: $name, ik: Kd::$ik, ok: Kd::$ok, fal: Fal::$fal, lens: Lens::$lens, owners: $own, mutable: $m }
-    };
-}
-
-pub const CORE_FORMS: &[FormMeta] = &[
-    fm!("fn/into_array", C, A, Inf, One, VL, false),
-    fm!("fn/from_array", A, C, Inf, One, VL, false),
-    fm!("fn/into_array_ref", C, A, Inf, One, SL, false),
-    fm!("fn/from_array_ref", A, C, Inf, One, SL, false),
-    fm!("fn/into_array_mut", C, A, Inf, One, SL, true),
-    fm!("fn/from_array_mut", A, C, Inf, One, SL, true),
-    fm!("fn/into_array_box", C, A, Inf, One, BX, false),
-    fm!("fn/from_array_box", A, C, Inf, One, BX, false),
-    fm!("fn/into_array_array", C, A, Inf, K3, VL, false),
-    fm!("fn/from_array_array", A, C, Inf, K3, VL, false),
-    fm!("fn/into_component_array", C, T, Pan, Pairs, VL, false),
-    fm!("fn/from_component_array", T, C, Pan, Pairs, VL, false),
-    fm!("fn/into_array_slice", C, A, Inf, Buf, SL, false),
-    fm!("fn/into_component_slice", C, T, Inf, Buf, SL, false),
-    fm!("fn/from_array_slice", A, C, Inf, Buf, SL, false),
-    fm!("fn/from_component_slice", T, C, Pan, Buf, SL, false),
-    fm!("fn/try_from_component_slice", T, C, Try, Buf, SL, false),
-    fm!("fn/into_array_slice_mut", C, A, Inf, Buf, SL, true),
-    fm!("fn/into_component_slice_mut", C, T, Inf, Buf, SL, true),
-    fm!("fn/from_array_slice_mut", A, C, Inf, Buf, SL, true),
-    fm!("fn/from_component_slice_mut", T, C, Pan, Buf, SL, true),
-    fm!("fn/try_from_component_slice_mut", T, C, Try, Buf, SL, true),
-    fm!("fn/into_array_slice_box", C, A, Inf, Buf, BX, false),
-    fm!("fn/into_component_slice_box", C, T, Inf, Buf, BX, false),
-    fm!("fn/from_array_slice_box", A, C, Inf, Buf, BX, false),
-    fm!("fn/from_component_slice_box", T, C, Pan, Buf, BX, false),
-    fm!("fn/try_from_component_slice_box", T, C, Try, Buf, BX, false),
-    fm!("fn/into_array_vec", C, A, Inf, Buf, VC, false),
-    fm!("fn/into_component_vec", C, T, Inf, Buf, VC, false),
-    fm!("fn/from_array_vec", A, C, Inf, Buf, VC, false),
-    fm!("fn/from_component_vec", T, C, Pan, Buf, VC, false),
-    fm!("fn/try_from_component_vec", T, C, Try, Buf, VC, false),
-    fm!("fn/map_vec_in_place(identity)", C, C, Inf, Buf, VC, false),
-    fm!("fn/map_slice_box_in_place(identity)", C, C, Inf, Buf, BX, false),
-    fm!("rt/value(into_array,from_array)", C, C, Inf, One, VL, false),
-    fm!("rt/slice_mut(arrays)", C, C, Inf, Buf, SL, true),
-    fm!("rt/slice_mut(components)", C, C, Inf, Buf, SL, true),
-    fm!("rt/box(arrays)", C, C, Inf, Buf, BX, false),
-    fm!("rt/box(components)", C, C, Inf, Buf, BX, false),
-    fm!("rt/vec(arrays)", C, C, Inf, Buf, VC, false),
-    fm!("rt/vec(components)", C, C, Inf, Buf, VC, false),
-    fm!("rt/vec(components->try_from)", T, T, Try, Buf, VC, false),
-    fm!("std/C:AsRef<[T;N]>", C, A, Inf, One, SL, false),
-    fm!("std/C:AsRef<[T]>", C, T, Inf, One, SL, false),
-    fm!("std/C:AsMut<[T;N]>", C, A, Inf, One, SL, true),
-    fm!("std/C:AsMut<[T]>", C, T, Inf, One, SL, true),
-    fm!("std/[T;N]:AsRef<C>", A, C, Inf, One, SL, false),
-    fm!("std/[T;N]:AsMut<C>", A, C, Inf, One, SL, true),
-    fm!("std/[T;N]:From<C>", C, A, Inf, One, VL, false),
-    fm!("std/C:From<[T;N]>", A, C, Inf, One, VL, false),
-    fm!("std/&[T;N]:From<&C>", C, A, Inf, One, SL, false),
-    fm!("std/&C:From<&[T;N]>", A, C, Inf, One, SL, false),
-    fm!("std/&[T]:From<&C>", C, T, Inf, One, SL, false),
-    fm!("std/&C:TryFrom<&[T]>", T, C, Try, Exact1, SL, false),
-    fm!("std/&mut[T;N]:From<&mut C>", C, A, Inf, One, SL, true),
-    fm!("std/&mut C:From<&mut[T;N]>", A, C, Inf, One, SL, true),
-    fm!("std/&mut[T]:From<&mut C>", C, T, Inf, One, SL, true),
-    fm!("std/&mut C:TryFrom<&mut[T]>", T, C, Try, Exact1, SL, true),
-    fm!("std/Box<[T;N]>:From<Box<C>>", C, A, Inf, One, BX, false),
-    fm!("std/Box<C>:From<Box<[T;N]>>", A, C, Inf, One, BX, false),
-];
 
 /// Execute one core form. `None` = unknown form name / shape not instantiated.
 pub fn run_core<C, T, const N: usize>(name: &str, p: &P) -> Option<Obs>
@@ -267,31 +119,6 @@ where
     })
 }
 
-// -----------------------------------------------------------------------------------------
-// by-value component arrays: (K colours, M components) pairs need literal const arguments
-
-/// the pairs instantiated for a component count: the exact ones (K, K·N) and near misses
-pub const fn pairs_for(n: usize) -> &'static [(usize, usize)] {
-    match n {
-        1 => &[(0, 0), (1, 1), (2, 2), (3, 3), (0, 1), (1, 0), (1, 2), (2, 1), (2, 3)],
-        2 => &[(0, 0), (1, 2), (2, 4), (3, 6), (0, 1), (1, 1), (1, 3), (2, 3), (2, 5), (1, 4)],
-        3 => &[(0, 0), (1, 3), (2, 6), (3, 9), (0, 1), (1, 2), (1, 4), (2, 5), (2, 7), (1, 6)],
-        4 => &[(0, 0), (1, 4), (2, 8), (3, 12), (0, 1), (1, 3), (1, 5), (2, 7), (2, 9), (1, 8)],
-        5 => &[(0, 0), (1, 5), (2, 10), (0, 1), (1, 4), (1, 6), (2, 9), (2, 11), (1, 10)],
-        _ => &[],
-    }
-}
-
-#[macro_export]
-macro_rules! with_pairs {
-    (1, $m:ident, $($args:tt)*) => { $m!([(0, 0), (1, 1), (2, 2), (3, 3), (0, 1), (1, 0), (1, 2), (2, 1), (2, 3)], $($args)*) };
-    (2, $m:ident, $($args:tt)*) => { $m!([(0, 0), (1, 2), (2, 4), (3, 6), (0, 1), (1, 1), (1, 3), (2, 3), (2, 5), (1, 4)], $($args)*) };
-    (3, $m:ident, $($args:tt)*) => { $m!([(0, 0), (1, 3), (2, 6), (3, 9), (0, 1), (1, 2), (1, 4), (2, 5), (2, 7), (1, 6)], $($args)*) };
-    (4, $m:ident, $($args:tt)*) => { $m!([(0, 0), (1, 4), (2, 8), (3, 12), (0, 1), (1, 3), (1, 5), (2, 7), (2, 9), (1, 8)], $($args)*) };
-    (5, $m:ident, $($args:tt)*) => { $m!([(0, 0), (1, 5), (2, 10), (0, 1), (1, 4), (1, 6), (2, 9), (2, 11), (1, 10)], $($args)*) };
-}
-
-/// free functions into_component_array / from_component_array for one (K, M) pair
 pub fn pair_fn<C, T, const N: usize, const K: usize, const M: usize>(name: &str, p: &P) -> Option<Obs>
 where
     C: Subject<T, N>,
@@ -328,18 +155,6 @@ where
         "trait/ComponentsInto::components_into" => run_val::<KT<C, T, N>, KC<C, T, N>, _, M, K>(p, |a| <[T; M] as ComponentsInto<[C; K]>>::components_into(a)),
         _ => return None,
     })
-}
-
-#[macro_export]
-macro_rules! pairs_runner {
-    ([$(($k:literal, $m:literal)),*], $f:ident, $C:ty, $T:ty, $n:tt) => {
-        |name: &str, p: &$crate::kinds::P| -> Option<$crate::kinds::Obs> {
-            match (p.len, p.cap) {
-                $( ($k, $m) => $crate::forms::$f::<$C, $T, $n, $k, $m>(name, p), )*
-                _ => None,
-            }
-        }
-    };
 }
 
 // -----------------------------------------------------------------------------------------
@@ -425,63 +240,6 @@ fn box_err<T>(e: BoxedSliceCastError<T>) -> Box<[T]> {
 fn vec_err<T>(e: VecCastError<T>) -> (&'static str, Vec<T>) {
     (kind_str(e.kind), e.values)
 }
-
-const BV: &[Owner] = &[Owner::Box, Owner::Vec];
-const BVV: &[Owner] = &[Owner::Box, Owner::Vec, Owner::Value];
-
-pub const TRAIT_FORMS: &[FormMeta] = &[
-    fm!("trait/AsArrays::as_arrays", C, A, Inf, Buf, ALL4, false),
-    fm!("trait/AsArraysMut::as_arrays_mut", C, A, Inf, Buf, ALL4, true),
-    fm!("trait/ArraysAs::arrays_as", A, C, Inf, Buf, ALL4, false),
-    fm!("trait/ArraysAsMut::arrays_as_mut", A, C, Inf, Buf, ALL4, true),
-    fm!("trait/AsComponents::as_components", C, T, Inf, Buf, ALL4, false),
-    fm!("trait/AsComponentsMut::as_components_mut", C, T, Inf, Buf, ALL4, true),
-    fm!("trait/TryComponentsAs::try_components_as", T, C, Try, Buf, ALL4, false),
-    fm!("trait/TryComponentsAsMut::try_components_as_mut", T, C, Try, Buf, ALL4, true),
-    fm!("trait/ComponentsAs::components_as", T, C, Pan, Buf, ALL4, false),
-    fm!("trait/ComponentsAsMut::components_as_mut", T, C, Pan, Buf, ALL4, true),
-    fm!("trait/FromArrays::from_arrays(&)", A, C, Inf, Buf, ALL4, false),
-    fm!("trait/FromArrays::from_arrays(&mut)", A, C, Inf, Buf, ALL4, true),
-    fm!("trait/ArraysInto::arrays_into(&)", A, C, Inf, Buf, ALL4, false),
-    fm!("trait/ArraysInto::arrays_into(&mut)", A, C, Inf, Buf, ALL4, true),
-    fm!("trait/IntoArrays::into_arrays(&)", C, A, Inf, Buf, ALL4, false),
-    fm!("trait/IntoArrays::into_arrays(&mut)", C, A, Inf, Buf, ALL4, true),
-    fm!("trait/ArraysFrom::arrays_from(&)", C, A, Inf, Buf, ALL4, false),
-    fm!("trait/ArraysFrom::arrays_from(&mut)", C, A, Inf, Buf, ALL4, true),
-    fm!("trait/TryFromComponents::try_from_components(&)", T, C, Try, Buf, ALL4, false),
-    fm!("trait/TryFromComponents::try_from_components(&mut)", T, C, Try, Buf, ALL4, true),
-    fm!("trait/FromComponents::from_components(&)", T, C, Pan, Buf, ALL4, false),
-    fm!("trait/FromComponents::from_components(&mut)", T, C, Pan, Buf, ALL4, true),
-    fm!("trait/TryComponentsInto::try_components_into(&)", T, C, Try, Buf, ALL4, false),
-    fm!("trait/TryComponentsInto::try_components_into(&mut)", T, C, Try, Buf, ALL4, true),
-    fm!("trait/ComponentsInto::components_into(&)", T, C, Pan, Buf, ALL4, false),
-    fm!("trait/ComponentsInto::components_into(&mut)", T, C, Pan, Buf, ALL4, true),
-    fm!("trait/IntoComponents::into_components(&)", C, T, Inf, Buf, ALL4, false),
-    fm!("trait/IntoComponents::into_components(&mut)", C, T, Inf, Buf, ALL4, true),
-    fm!("trait/ComponentsFrom::components_from(&)", C, T, Inf, Buf, ALL4, false),
-    fm!("trait/ComponentsFrom::components_from(&mut)", C, T, Inf, Buf, ALL4, true),
-    // owned: Box<[_]>, Vec<_> and by-value arrays of colours/arrays (K = 0..=3)
-    fm!("trait/FromArrays::from_arrays", A, C, Inf, Buf, BVV, false),
-    fm!("trait/ArraysInto::arrays_into", A, C, Inf, Buf, BVV, false),
-    fm!("trait/IntoArrays::into_arrays", C, A, Inf, Buf, BVV, false),
-    fm!("trait/ArraysFrom::arrays_from", C, A, Inf, Buf, BVV, false),
-    fm!("trait/TryFromComponents::try_from_components", T, C, Try, Buf, BV, false),
-    fm!("trait/FromComponents::from_components", T, C, Pan, Buf, BV, false),
-    fm!("trait/TryComponentsInto::try_components_into", T, C, Try, Buf, BV, false),
-    fm!("trait/ComponentsInto::components_into", T, C, Pan, Buf, BV, false),
-    fm!("trait/IntoComponents::into_components", C, T, Inf, Buf, BV, false),
-    fm!("trait/ComponentsFrom::components_from", C, T, Inf, Buf, BV, false),
-];
-
-/// trait forms on by-value component arrays ((K, M) pairs; executed by `pair_trait`)
-pub const TRAIT_PAIR_FORMS: &[FormMeta] = &[
-    fm!("trait/IntoComponents::into_components", C, T, Pan, Pairs, VL, false),
-    fm!("trait/ComponentsFrom::components_from", C, T, Pan, Pairs, VL, false),
-    fm!("trait/TryFromComponents::try_from_components", T, C, Pan, Pairs, VL, false),
-    fm!("trait/FromComponents::from_components", T, C, Pan, Pairs, VL, false),
-    fm!("trait/TryComponentsInto::try_components_into", T, C, Pan, Pairs, VL, false),
-    fm!("trait/ComponentsInto::components_into", T, C, Pan, Pairs, VL, false),
-];
 
 pub fn run_traits<C, T, const N: usize>(name: &str, p: &P) -> Option<Obs>
 where
@@ -577,3 +335,4 @@ where
         _ => return None,
     })
 }
+
